@@ -1094,7 +1094,11 @@ def prepare_coal(c):
                     break
                 p["cutoff"] *= 1.0 + 0.37 * c["ex"]["sep"]
             else:
-                raise HarnessError("cannot separate a regular grid")
+                # no admissible cutoff nearby (many coalescent times, wide separation): use the same points as an
+                # explicit grid and move them individually
+                pts = np.linspace(0, p.pop("cutoff"), m)[1:].tolist()
+                newg = separate({j: t for j, t in enumerate(pts)}, list(g["c"]), delta)
+                p["grid"] = sorted(newg.values())
         else:
             newg = separate({j: t for j, t in enumerate(grid)}, list(g["c"]) + (list(g["s"]) if c.get("grid_param") else []), delta)
             p["grid"] = sorted(newg.values())
